@@ -268,14 +268,14 @@ def run_check(cd, tier, seed, write=True):
         log('[validate] %s: %d findings (drift)' % (cd.trace_spec[0], len(fnd)))
     phase('trace-spec validation')
     cands = []
+    notes = []
     for (mod, cfg) in cd.monitors:
         fnd, st = core.validate(files, mod, os.path.join(core.SPECS, cfg), tag=cd.pid + 'mon', timeout=900 if tier == 'quick' else 3600)
         for x in fnd:
             if x['kind'] == 'error':
                 raise Infra('monitor failed: ' + x['text'])
             if x['kind'] == 'note':
-                ex = core.exec_at_line_file(x['file'], x['line'])
-                res.monnotes.append((x['text'], ex[1][0] if ex else None))
+                notes.append(x)
                 continue
             if x['kind'] == 'rejected':
                 raise Infra('monitor %s got stuck at line %s of %s (monitors must accept every trace)' % (mod, x['line'], x['file']))
@@ -285,6 +285,14 @@ def run_check(cd, tier, seed, write=True):
             cands.append((mod, x))
         log('[validate] %s: %d candidate violations' % (mod, len([y for y in fnd if y['kind'] == 'monviol'])))
 
+    # notes of the monitors (e.g. "two shared handles overlapped"): the reset event of their execution, one pass per file
+    byfile = {}
+    for x in notes:
+        byfile.setdefault(x['file'], []).append(x)
+    for f, xs in byfile.items():
+        rs = core.resets_at_lines(f, [x['line'] for x in xs])
+        for x in xs:
+            res.monnotes.append((x['text'], rs.get(x['line'])))
     phase('monitor validation')
     # distinct / non-trivial counting (streamed, in parallel: the thorough tier records millions of events)
     total, sigs, nontrivial, resets, sample = core.scan_stats(files)
